@@ -505,6 +505,7 @@ func genC07(r *rand.Rand, t *Trace, thorough bool) {
 }
 
 func genC16(r *rand.Rand, t *Trace, thorough bool) {
+	defer genSegmentPrefixes(r, t, thorough)
 	per := 4
 	maxAll := 1500
 	if thorough {
